@@ -1088,6 +1088,12 @@ fn run_op<const N: usize, T: Elem>(
             meas(|| drop(old));
             "unit".to_string()
         }
+        "default" => {
+            // <CircularBuffer<N, T> as Default>::default()
+            let old = mem::replace(buf, meas(|| Default::default()));
+            meas(|| drop(old));
+            "unit".to_string()
+        }
         "from_iter" => {
             let xs: Vec<T> = mk_all(toks[1]);
             let it = FaultIter(xs.into_iter());
